@@ -241,6 +241,59 @@ func c07Programs(run *PropRun) {
 	for i, p := range grammarCorpus {
 		check(fmt.Sprintf("tparm-grammar[%d:%s]", i, p), p, "grammar corpus (bounded stand-in)", true)
 	}
+	// concrete calls the symbolic runs cannot express: fewer parameters than the program mentions (missing ones read as
+	// 0, %i still applies to those that are there), and %l on text with multi-byte characters (strlen counts bytes)
+	type cc struct {
+		prog string
+		vals []interface{}
+		want string
+	}
+	for i, k := range []cc{
+		{"\x1b[%i%p1%dG", []interface{}{int64(0)}, "\x1b[1G"},
+		{"\x1b[%i%p1%dG", []interface{}{int64(41)}, "\x1b[42G"},
+		{"%i%p1%d;%p2%d", []interface{}{int64(5), "x"}, "6;0"},
+		{"%p1%l%d", []interface{}{"h\u00e9llo"}, "6"},
+		{"%p1%l%d", []interface{}{"\u65e5\u672c"}, "6"},
+		{"<%p1%l%d:%p1%s>", []interface{}{"\u00fcber"}, "<5:\u00fcber>"},
+		{"%p1%l%d", []interface{}{""}, "0"},
+	} {
+		st := db.St.clone()
+		db.St = st
+		var args []Value
+		var dyn []types.Type
+		var lits []string
+		for _, v := range k.vals {
+			switch x := v.(type) {
+			case int64:
+				args = append(args, bv64(x))
+				dyn = append(dyn, types.Typ[types.Int])
+				lits = append(lits, fmt.Sprintf("int(%d)", x))
+			case string:
+				args = append(args, conc(x))
+				dyn = append(dyn, types.Typ[types.String])
+				lits = append(lits, fmt.Sprintf("%q", x))
+			}
+		}
+		name := fmt.Sprintf("tparm-concrete[%d:%s]", i, k.prog)
+		real, err := evalMethod(db, xterm, "TParm", []Value{conc(k.prog), ifaceSliceOf(c, st, args, dyn)})
+		got := "?"
+		if err == nil && len(real) == 1 {
+			ps := flattenRope(real[0].Out)
+			if len(ps) == 0 {
+				got = ""
+			} else if len(ps) == 1 && ps[0].Conc != nil {
+				got = *ps[0].Conc
+			}
+		}
+		if err != nil {
+			got = "error: " + err.Error()
+		}
+		g := run.AddObligation(name, "table-bounded", BoolT(got == k.want), fmt.Sprintf("TParm(%q, %s) == %q per terminfo(5) [the real code gives %q]", k.prog, strings.Join(lits, ", "), k.want, got))
+		g.ReplayDir = e.Repo + "/terminfo"
+		g.ReplayGo = replayTest("terminfo", nil, fmt.Sprintf(`
+	ti := &Terminfo{}
+	if got := ti.TParm(%q, %s); got != %q { fail("TParm(%%q, %%s) = %%q, terminfo(5) gives %%q", %q, %q, got, %q); return }`, k.prog, strings.Join(lits, ", "), k.want, k.prog, strings.Join(lits, ", "), k.want))
+	}
 	// static variables persist across calls: TParm("%p1%PV") then TParm("%gV%d") prints the first call's parameter
 	for _, v := range []byte{'A', 'M', 'Z'} {
 		st := db.St.clone()
